@@ -1,5 +1,5 @@
 (* C10 -- Garbage collection never removes a needed file and leaves no orphan. *)
-From TV Require Import Base.Prelude Storage.Crash Storage.CrashProofs Storage.GC.
+From TV Require Import Base.Prelude Storage.Crash Storage.CrashProofs Storage.GC Storage.TempStore.
 Local Open Scope N_scope.
 
 (* A collection deletes only managed paths that are not living: a living file, and any file the
@@ -41,6 +41,14 @@ Example nonvacuous_gc :
   let s := grun {| g_files := []; g_managed := [] |} [GCreate 1; GCreate 2; GCreate 3; GCollect [1; 3]; GCreate 4] in
   g_files (gc [3; 4] s) = [4; 3] /\ quiescent_ok [3; 4] (gc [3; 4] s) = true.
 Proof. vm_compute. split; reflexivity. Qed.
+
+(* the temporary doc store of a sorted index: once the worker has untracked it, no later delete meta (any number of commits)
+   lists it as a living file again, so the next collection removes it (F102, fixed in /repo: with_delete_meta re-created the
+   flag as true; WITH_DELETE_META_KEEPS_TEMP_FLAG regenerated from the source) *)
+Theorem C10_temp_store_stays_untracked : forall ops1 ops2, lists_temp_store (ts_run (ops1 ++ TUntrack :: ops2)) = false.
+Proof. exact temp_store_stays_untracked. Qed.
+Theorem C10_recreated_flag_protects_again : lists_temp_store (ts_run_gen false [TUntrack; TWithDelete]) = true.
+Proof. exact recreated_flag_protects_again. Qed.
 
 (* ---- on every history of the writer protocol (Storage/Proto.v: the model behind C01_all_histories) ---- *)
 From TV Require Import Storage.Proto Storage.ProtoProofs.
